@@ -14,7 +14,8 @@
 (***************************************************************************)
 EXTENDS Naturals, Sequences, FiniteSets, TLC
 
-CONSTANTS Starts          \* subset of {"created", "openrw", "openro"}
+CONSTANTS Starts,         \* subset of {"created", "openrw", "openro"}
+          KeepHist        \* TRUE: hist is the whole history (generation); FALSE: only the last call (long traces)
 
 VARIABLES
     mode,      \* "def" | "coll" | "indep" | "closed"
@@ -31,6 +32,8 @@ VARIABLES
 
 vars  == <<mode, ro, fresh, abuf, pend, xdim, xvar, xatt, ga, vname, fillm, exists, hist>>
 state == <<mode, ro, fresh, abuf, pend, xdim, xvar, xatt, ga, vname, fillm, exists>>
+
+H(r) == IF KeepHist THEN Append(hist, r) ELSE <<r>>
 
 Calls ==
     { [c |-> "enddef"], [c |-> "redef"], [c |-> "begin_indep"], [c |-> "end_indep"],
@@ -153,7 +156,7 @@ Call(c, rc) ==
               /\ exists' = IF c.c = "abort" /\ fresh THEN FALSE ELSE exists
               /\ UNCHANGED <<ro, fresh, xdim, xvar, xatt, ga, vname, fillm>>
          ELSE IF rc = "NC_NOERR" THEN Effect(c) ELSE UNCHANGED state
-    /\ hist' = Append(hist, [c |-> c, rc |-> rc])
+    /\ hist' = H([c |-> c, rc |-> rc])
 
 InitOf(s) ==
     /\ mode = IF s = "created" THEN "def" ELSE "coll"
